@@ -515,6 +515,9 @@ def correspond(run, family, harness, flagset, model_fam, cases, oracle, nontrivi
         if flagset == 'w32' and not os.environ.get('VERIF_REPLAYING'):
             cases = list(cases) + clock_aimed(cases)
         cases = [short_mark(c) for c in cases]
+        if model_fam == 'NODEGF':
+            # a quarter of the group-function cases run with an application catch-all handler that declines everything (gfapp=1): transparent
+            cases = [(c.replace(' |', ' gfapp=1 |', 1) if (' gfapp=1' not in c and c.startswith('NODE ') and zlib.crc32(c.replace(' short=1', '').encode()) % 4 == 1) else c) for c in cases]
     hexe, err = build_harness(harness, flagset)
     if hexe is None:
         run.broken.append('harness %s does not build against the current /repo/src (%s): %s' % (harness, flagset, (err or '')[-1500:]))
